@@ -48,6 +48,7 @@ def model_check(rep, tier, seed, label="C07"):
 
 def jobs_for(rng, n, kinds, max_iter, **kw):
     jobs, models = [], {}
+    kw.setdefault("big_p", 0.08)
     for i in range(n):
         m = rd_model.random_model(rng, **kw)
         kind = kinds[i % len(kinds)]
@@ -159,7 +160,8 @@ def gillespie_stats(rep, tier, seed):
     lib = ctypes.CDLL(build.build_engine("plain"))
     nev = 40000 if tier == "quick" else 400000
     runs = []
-    for di, desc in enumerate(STAT_MODELS):
+    stat_models = STAT_MODELS + [graph_twin(t) for t in STAT_MODELS if t["space"]["type"] == "grid" and not any(t["space"]["bc"])]
+    for di, desc in enumerate(stat_models):
         m = mk(desc)
         tr, ts, traj = rd_rec.record_run(lib, m, "gillespie", seed * 17 + di, nev, cap=None)
         runs.append((desc, m, tr, ts))
@@ -299,13 +301,31 @@ TAU_MODELS = [
 ]
 
 
+def graph_twin(desc):
+    """the same model on the graph its grid converts to (reflecting axes): the graph engines are separate code"""
+    g = desc["space"]
+    w, h, d = g["w"], g["h"], g["d"]
+    hh = g["hh"]
+    nodes = [{"hh": hh, "env": g["cell_env"][i]} for i in range(w * h * d)]
+    edges = []
+    for i in range(w * h * d):
+        x, y, z = i % w, (i % (w * h)) // w, i // (w * h)
+        if x < w - 1:
+            edges.append({"i": i, "j": i + 1, "sfc": Fr(hh * hh), "dst": Fr(hh)})
+        if y < h - 1:
+            edges.append({"i": i, "j": i + w, "sfc": Fr(hh * hh), "dst": Fr(hh)})
+        if z < d - 1:
+            edges.append({"i": i, "j": i + w * h, "sfc": Fr(hh * hh), "dst": Fr(hh)})
+    return dict(desc, name=desc["name"] + "(graph)", space={"type": "graph", "nodes": nodes, "edges": edges})
+
+
 def tauleap_stats(rep, tier, seed):
     import ctypes
     from ..vlib import build
     lib = ctypes.CDLL(build.build_engine("plain"))
     nrep = 6 if tier == "quick" else 40
     dt = 0.01
-    for di, desc in enumerate(TAU_MODELS):
+    for di, desc in enumerate(TAU_MODELS + [graph_twin(t) for t in TAU_MODELS]):
         m = mk(desc)
         runs = []
         for rp in range(nrep):
